@@ -230,6 +230,7 @@ CONSTANTS
   NM = %d
   Emit = %s
 INVARIANT Correct
+INVARIANT SameAsTraversal
 INVARIANT Inside
 INVARIANT Bounded
 PROPERTY Terminates
@@ -239,7 +240,7 @@ CHECK_DEADLOCK FALSE
 
 def mc_closure(chk, nm, emit=True, timeout=3000):
     r = chk.model_check("MC_Closure", CFG_CLOSURE % (nm, "TRUE" if emit else "FALSE"),
-                        "closure loop of merge_models for every similarity relation on %d models: Correct Inside Bounded, "
+                        "group closure of merge_models for every similarity relation on %d models: Correct SameAsTraversal Inside Bounded, "
                         "liveness Terminates" % nm, timeout=timeout)
     return [json.loads(t[1]) for t in tlc.printed_tuples(r["out"], "B")] if emit else []
 
